@@ -307,7 +307,7 @@ def wl_apply_modes(run, rng, idx):
     ki, oi_, ti_, mi = COMBOS[(idx * 7919) % len(COMBOS)]
     kind = ALL_KINDS[ki]
     oshape, tshape, mode = G.OBJ_SHAPES[oi_], G.TRF_SHAPES[ti_], rp.MODES[mi]
-    n = dims_for(kind, idx // len(COMBOS) + idx)
+    n = dims_for(kind, idx // len(COMBOS) + idx, hi=5 if run.tier == "thorough" else 4)
     hyp = G.KINDS[kind][1]
     tkind = "H.Isometry" if hyp else "P.Transformation"
     cx = (not hyp) and (idx % 5 == 4)
@@ -365,6 +365,7 @@ def wl_apply_modes(run, rng, idx):
 # vectorised geometry, per index
 
 MODELS = ("projective", "klein", "poincare", "halfspace", "hyperboloid")
+POINT_CLASSES = ("bulk", "mixed-sign-and-scale", "near-boundary", "near-origin")
 
 
 def wl_points(run, rng, idx):
@@ -374,10 +375,35 @@ def wl_points(run, rng, idx):
     shape = pick(G.OBJ_SHAPES, idx)
     n = 1 + (idx // len(G.OBJ_SHAPES)) % 4
     P, Q = G.separated_pair(rng, n, shape, G.interior)
-    case = {"dimension": n, "shape": list(shape), "P": P, "Q": Q}
+    # hostile representative / radius classes
+    pcls = POINT_CLASSES[(idx // (4 * len(G.OBJ_SHAPES))) % len(POINT_CLASSES)]
+    if pcls == "mixed-sign-and-scale":
+        P = P * rng.choice([-1.0, 1.0], size=shape + (1,)) * \
+            np.exp(rng.uniform(np.log(0.1), np.log(10.0), size=shape + (1,)))
+        Q = Q * rng.choice([-1.0, 1.0], size=shape + (1,)) * \
+            np.exp(rng.uniform(np.log(0.1), np.log(10.0), size=shape + (1,)))
+    elif pcls in ("near-boundary", "near-origin"):
+        lo, hi = (1e-6, 1e-2) if pcls == "near-boundary" else (1e-8, 1e-3)
+        for _ in range(20):
+            rP = np.exp(rng.uniform(np.log(lo), np.log(hi), size=shape + (1,)))
+            rQ = np.exp(rng.uniform(np.log(lo), np.log(hi), size=shape + (1,)))
+            if pcls == "near-boundary":
+                rP, rQ = 1.0 - rP, 1.0 - rQ
+            P = rh.klein_to_proj(rh.rand_sphere(rng, n, shape) * rP)
+            Q = rh.klein_to_proj(rh.rand_sphere(rng, n, shape) * rQ)
+            if n >= 2 or np.all(np.abs(rh.proj_to_klein(P) - rh.proj_to_klein(Q)) > 1e-9):
+                break
+    tangent_ok = bool(np.all(rp.klein_sep(P, Q) > 1e-2)) and pcls != "near-origin"
+    # conditioning of everything built from isometries at these points: their
+    # entries grow like 1/(1-r^2); earlier queries renormalise the composite's
+    # data in place (1 ulp), which this factor amplifies
+    with np.errstate(all="ignore"):
+        kappa = float(max(np.max(1.0 / (1.0 - np.sum(rh.proj_to_klein(P) ** 2, axis=-1))),
+                          np.max(1.0 / (1.0 - np.sum(rh.proj_to_klein(Q) ** 2, axis=-1))), 1.0))
+    case = {"dimension": n, "shape": list(shape), "point_class": pcls, "P": P, "Q": Q}
     run.current_case = case
     p, q = H.Point(P.copy()), H.Point(Q.copy())
-    sig = (n, shape)
+    sig = (n, shape, pcls)
 
     def unit_pts(i):
         return H.Point(P[i].copy()), H.Point(Q[i].copy())
@@ -403,10 +429,16 @@ def wl_points(run, rng, idx):
     # distance
     J = Judge(run, "per-index", "Point.distance", sig, case)
     d = arr(p.distance(q))
+    dref = np.asarray(rh.dist_proj(P, Q))
     if J.shape(d.shape, shape):
         for i in np.ndindex(*shape):
+            if dref[i] < 1e-3:
+                # arccosh(1+eps): one ulp in the product moves the result by
+                # eps/d (NaN below 1): C01's domain, not a vectorisation matter
+                J.mon.skip("near-coincident pair (arccosh ill-conditioned)")
+                continue
             pu, qu = unit_pts(i)
-            J.num("distance", d[i], arr(pu.distance(qu)), i, tol=1e-7)
+            J.num("distance", d[i], arr(pu.distance(qu)), i, tol=1e-7 + 1e-13 * kappa)
         run.note_class("distance", *sig)
     # origin_to
     for fo in (True, False):
@@ -417,9 +449,10 @@ def wl_points(run, rng, idx):
         for i in np.ndindex(*shape):
             pu, _ = unit_pts(i)
             Tu = pu.origin_to(force_oriented=fo)
-            _isometry_per_index(run, J, T.proj_data[i], Tu.proj_data, i, P[i][None], free=(n >= 2))
+            _isometry_per_index(run, J, T.proj_data[i], Tu.proj_data, i, P[i][None], free=(n >= 2),
+                                scale=kappa)
         run.note_class("origin_to", fo, *sig)
-    if n >= 2:
+    if n >= 2 and tangent_ok:
         # unit tangent, point_along, isometry_to, angle
         J = Judge(run, "per-index", "Point.unit_tangent_towards", sig, case)
         tv = p.unit_tangent_towards(q)
@@ -443,42 +476,52 @@ def wl_points(run, rng, idx):
                 pu, qu = unit_pts(i)
                 tu = pu.unit_tangent_towards(qu)
                 wu = pu.unit_tangent_towards(H.Point(R[i].copy()))
-                J.dev("primary", rp.tangent_dev(tv.proj_data[i], tu.proj_data), i)
-                J.dev("auxiliary", rp.tangent_dev(tv.aux_data[i], tu.aux_data), i)
+                kt = TOL_PROJ * kappa
+                J.dev("primary", rp.tangent_dev(tv.proj_data[i], tu.proj_data), i, tol=kt)
+                J.dev("auxiliary", rp.tangent_dev(tv.aux_data[i], tu.aux_data,
+                                                  project=(False, False)), i, tol=kt)
                 Jp.dev("array-distance", rp.max_row_dev(
-                    along_a.proj_data[i], tu.point_along(float(dist_arr[i])).proj_data), i)
+                    along_a.proj_data[i], tu.point_along(float(dist_arr[i])).proj_data), i, tol=kt)
                 Jp.dev("scalar-distance", rp.max_row_dev(
-                    along_s.proj_data[i], tu.point_along(dist_scalar).proj_data), i)
+                    along_s.proj_data[i], tu.point_along(dist_scalar).proj_data), i, tol=kt)
                 frame_u = tu.aux_data
                 _isometry_per_index(run, Jo, tv_to.proj_data[i], tu.origin_to().proj_data, i,
-                                    frame_u, free=(n >= 3))
+                                    frame_u, free=(n >= 3), scale=kappa)
                 _isometry_per_index(run, Ji, iso.proj_data[i], tu.isometry_to(wu).proj_data, i,
-                                    None, free=(n >= 3), src=tu.aux_data, dst=wu.aux_data)
-                Ja.num("angle", ang[i], arr(tu.angle(wu)), i, tol=1e-6)
+                                    None, free=(n >= 3), src=tu.aux_data, dst=wu.aux_data,
+                                    scale=kappa * kappa)
+                with np.errstate(all="ignore"):
+                    aref = float(rh.angle_at(P[i], Q[i], R[i]))
+                if not (1e-2 < aref < np.pi - 1e-2):
+                    Ja.mon.skip("nearly parallel tangent vectors (arccos ill-conditioned)")
+                else:
+                    Ja.num("angle", ang[i], arr(tu.angle(wu)), i, tol=1e-6 * kappa)
             run.note_class("tangent", *sig)
     if idx < 2:
         run.sample({"workload": "points", "dimension": n, "shape": list(shape), "P": P})
 
 
-def _isometry_per_index(run, J, Mc, Mu, i, frame, free, src=None, dst=None):
+def _isometry_per_index(run, J, Mc, Mu, i, frame, free, src=None, dst=None, scale=1.0):
     """Mc (composite's entry) vs Mu (unit's result), row matrices.  If the
     construction is free (kernel of dimension >= 2), judge only the determined
-    part: same image flag, both form preserving; full agreement otherwise."""
+    part: same image flag, both form preserving; full agreement otherwise.
+    `scale` = conditioning of the input class (tolerances are multiplied)."""
+    scale = min(max(scale, 1.0), 1e6)
     full = float(rp.max_mat_dev(Mc, Mu))
-    if full <= TOL_PROJ or not free:
-        return J.dev("matrix", full, i)
+    if full <= TOL_PROJ * scale or not free:
+        return J.dev("matrix", full, i, tol=TOL_PROJ * scale)
     # determined part
     resid = max(float(np.max(rp.conformal_residual(Mc))), float(np.max(rp.conformal_residual(Mu))))
-    J.dev("form-preserving", resid, i, tol=1e-8)
+    J.dev("form-preserving", resid, i, tol=1e-8 * scale)
     if frame is not None:
         k = np.shape(frame)[-2]
         # rows 0..k-1 of the matrix are the images of e_0..e_{k-1}
-        J.dev("determined-rows", rp.max_row_dev(Mc[:k], Mu[:k]), i, tol=1e-8)
+        J.dev("determined-rows", rp.max_row_dev(Mc[:k], Mu[:k]), i, tol=1e-8 * scale)
     if src is not None:
         # both must take the source frame to the destination frame
         a = src @ Mc
         b = src @ Mu
-        J.dev("image-of-source", rp.tangent_dev(a, b), i, tol=1e-7)
+        J.dev("image-of-source", rp.tangent_dev(a, b), i, tol=1e-7 * scale)
     J.mon.diag("%s: composite and unit differ within the documented freedom" % J.op)
 
 
@@ -818,7 +861,7 @@ def _reshapes(shape):
 
 WORKLOADS = [
     Workload("apply-modes", wl_apply_modes, quick=700, thorough=9000),
-    Workload("points", wl_points, quick=80, thorough=1600),
+    Workload("points", wl_points, quick=160, thorough=3200),
     Workload("construct", wl_construct, quick=260, thorough=4000),
     Workload("circles", wl_circles, quick=160, thorough=2400),
     Workload("fixed-and-sl2", wl_fixed_and_sl2, quick=40, thorough=800),
